@@ -32,6 +32,9 @@ class PyvisLeg(R.RenderLeg):
         u = case["queries"][0][1]
         members = snap["uverts"][u]
         for q, a in zip(case["queries"], obs["answers"]):
+            if a[0] == "net" and len(a) > 3 and set(a[3]) - ({"r"} if q[2] else {"v"}):
+                return [f"labels {a[3]!r} of make_pyvis_net(rvfunc {'given' if q[2] else 'not given'}): "
+                        f"{'not every label is the one rvfunc returns' if q[2] else 'a label is not the default one'}"]
             if a[0] != "net":
                 continue
             nodes, edges = a[1], a[2]
